@@ -192,3 +192,15 @@ def register_all(prop):
                "+ burst. non-trivial = >= 1 byte through >= 1 wrapper or >= 2 concurrent connections; distinct = distinct (option vector, stream shapes)."),
          assumptions=["loopback only", "rate bound checked over the whole observed window (sound under load because receive times can only be later than pass-through times)",
                       "closing a raw kcp connection without stream multiplexing does not flush: completion after close is not asserted there"])
+    prop("C03", qshards=16, tshards=16, qlimit=600, tlimit=3600,
+         rule=("udp_tunnels: real in-process frps + frpc (+ a second frpc with the visitor for sudp); rapid draws kind udp / sudp, encryption, compression, "
+               "tcpMux, a generous client/server bandwidth limit (wrapper only), udpPacketSize 576 / 1500 / 4000 (both sides), 1..2 proxies with their own "
+               "backends, 1..6 user sockets and a script of 1..120 datagrams (user, proxy, length 0..packet size biased to 0/1/2/512/1400/1472/packet-size "
+               "boundaries, pseudo-random bytes, gap 0..4 ms; three quarters of the scripts are light load with every gap >= 1 ms) and, for udp with tcpMux "
+               "off, optionally a relay that kills the work connection before a drawn datagram. Each backend logs what it got and answers with the "
+               "complemented payload. Oracle: backend log is a sub-multiset of what was sent to that proxy, each user's replies are a sub-multiset of the "
+               "transforms of its own datagrams and come from the public endpoint, and at light load every datagram and every reply arrives within 3 s "
+               "(around a replacement only datagrams outside the 1.5 s re-establishment window). non-trivial = >= 2 users interleaved or a payload >= 1000 "
+               "bytes or a replaced work connection; distinct = distinct (options, (user, proxy, length) sequence)."),
+         assumptions=["loopback only, 8 MiB socket buffers at the harness ends", "delivery asserted only for light-load scripts; bursty scripts check inclusion only",
+                      "the 30 s idle eviction of per-user sockets is not exercised"])
